@@ -125,8 +125,18 @@ def extract_store(notes: list[str]) -> dict:
         notes.append("gen/handler_status: update_handler_status not found")
         return res
     reads = False
+    # locals: `found = await self.query(...)`, `handler = found[0]` (whatever they are called)
+    found_name, handler_name = "found", "handler"
     for n in ast.walk(fn):
-        if isinstance(n, ast.Attribute) and n.attr == "status" and isinstance(n.ctx, ast.Load) and isinstance(n.value, ast.Name) and n.value.id == "handler":
+        if isinstance(n, ast.Assign) and len(n.targets) == 1 and isinstance(n.targets[0], ast.Name):
+            if isinstance(n.value, ast.Await) and _calls(n.value, "query"):
+                found_name = n.targets[0].id
+    for n in ast.walk(fn):
+        if isinstance(n, ast.Assign) and len(n.targets) == 1 and isinstance(n.targets[0], ast.Name) \
+                and isinstance(n.value, ast.Subscript) and isinstance(n.value.value, ast.Name) and n.value.value.id == found_name:
+            handler_name = n.targets[0].id
+    for n in ast.walk(fn):
+        if isinstance(n, ast.Attribute) and n.attr == "status" and isinstance(n.ctx, ast.Load) and isinstance(n.value, ast.Name) and n.value.id == handler_name:
             reads = True
         if isinstance(n, ast.If):
             t = n.test
@@ -147,7 +157,7 @@ def extract_store(notes: list[str]) -> dict:
                 if any(isinstance(a, ast.Assign) and isinstance(a.targets[0], ast.Attribute) and a.targets[0].attr == "idle_since" for a in n.body):
                     res["idleUnlessUnset"] = True
             # if not found: ... return
-            if isinstance(t, ast.UnaryOp) and isinstance(t.op, ast.Not) and isinstance(t.operand, ast.Name) and t.operand.id == "found":
+            if isinstance(t, ast.UnaryOp) and isinstance(t.op, ast.Not) and isinstance(t.operand, ast.Name) and t.operand.id == found_name:
                 if any(isinstance(a, ast.Return) for a in n.body) and not any(isinstance(a, ast.Raise) for a in ast.walk(n)):
                     res["notFoundSkips"] = True
     res["readsCurrent"] = reads
@@ -168,10 +178,15 @@ def extract_adapter(notes: list[str]) -> dict:
     body = withs[0].body if withs else fn.body
     res["underLock"] = bool(withs) and "_write_lock" in ast.dump(withs[0].items[0].context_expr)
     guard = None
+    flag = None
+    for st in body:
+        if isinstance(st, ast.Assign) and len(st.targets) == 1 and isinstance(st.targets[0], ast.Name) and _calls(st.value, "is_replaying"):
+            flag = st.targets[0].id
     for i, st in enumerate(body):
-        if isinstance(st, ast.If) and isinstance(st.test, ast.UnaryOp) and isinstance(st.test.op, ast.Not) \
-                and isinstance(st.test.operand, ast.Name) and st.test.operand.id == "replaying":
-            guard = (i, st)
+        if isinstance(st, ast.If) and isinstance(st.test, ast.UnaryOp) and isinstance(st.test.op, ast.Not):
+            o = st.test.operand
+            if (isinstance(o, ast.Name) and o.id == flag) or (isinstance(o, ast.Call) and isinstance(o.func, ast.Attribute) and o.func.attr == "is_replaying"):
+                guard = (i, st)
     if guard is None:
         notes.append("gen/handler_status: `if not replaying:` not found in write_to_event_stream")
         return res
@@ -231,7 +246,8 @@ def extract_adapter(notes: list[str]) -> dict:
     if rw is not None:
         for n in ast.walk(rw):
             if isinstance(n, ast.IfExp) and isinstance(n.body, ast.Call) and isinstance(n.body.func, ast.Attribute) and n.body.func.attr == "pop" \
-                    and len(n.body.args) == 1 and isinstance(n.body.args[0], ast.Constant) and n.body.args[0].value == 0 and _is_none(n.orelse):
+                    and len(n.body.args) == 1 and isinstance(n.body.args[0], ast.Constant) and n.body.args[0].value == 0 and _is_none(n.orelse) \
+                    and isinstance(n.test, ast.Name) and isinstance(n.body.func.value, ast.Name) and n.test.id == n.body.func.value.id:
                 res["retryPopsFront"] = True
             if isinstance(n, ast.If) and isinstance(n.test, ast.Compare) and isinstance(n.test.ops[0], ast.Is) and _is_none(n.test.comparators[0]):
                 if any(isinstance(a, ast.Raise) and a.exc is None for a in n.body):
